@@ -623,7 +623,8 @@ func TestC14(t *testing.T) {
 	r.Assume("request boundaries of the client script are those of the independent h1 reference on well-formed generated requests; 'received' = handed out by the scripted conn's Read (netx.Scripted.Delivered sampled inside the hook)")
 	r.Assume("a read timeout is modelled by a conn whose Read returns a net.OpError wrapping os.ErrDeadlineExceeded once the script is exhausted (the scripted conn ignores deadlines)")
 	r.Assume("which terminal state (closed vs hijacked) is reported is not judged, only that there is exactly one and nothing follows it until the case ends (hijack handler finished, Serve returned)")
-	n := r.N(20_000, 1_000_000)
+	r.Assume("in Serve mode the terminal hook call of a connection the server has already closed is awaited for 10 s (it directly follows Close in the worker) before the connection is judged no-terminal-state")
+	n := r.N(20_000, 2_000_000)
 	mon.Parallel(n, 0, func(i int) {
 		if !r.Want(i) {
 			return
